@@ -8,6 +8,20 @@ def block(name, text):
     a, b = '<!-- %s:begin -->' % name, '<!-- %s:end -->' % name
     s = re.sub(re.escape(a) + '.*?' + re.escape(b), lambda m: a + '\n' + text.strip() + '\n' + b, s, flags=re.S)
 block('SEEDTABLE', subprocess.run(['/verif/tools/seedtable.py'], capture_output=True, text=True).stdout)
+# fixes recorded in known_findings.json that the hand-written table of 7.1 does not mention yet
+import json
+fixed = json.load(open('/verif/known_findings.json'))['fixed']
+hand = s.split('<!-- FIXTABLE:begin -->')[0]
+rows = ['| commit | property | failing input / history (witness) | repair |', '|---|---|---|---|']
+for line in fixed:
+    m = re.match(r'fixed: property=(C\d+) ([0-9a-f]{7,}) (.*)', line, re.S)
+    if not m or m.group(2) in hand:
+        continue
+    subj = subprocess.run(['git', '-C', '/repo', 'log', '-1', '--format=%s', m.group(2)], capture_output=True, text=True).stdout.strip()
+    subj = re.sub(r'^fix:\s*', '', subj)
+    esc = lambda t: ' '.join(t.split()).replace('|', '\\|')
+    rows.append('| %s | %s | %s | %s |' % (m.group(2), m.group(1), esc(m.group(3)), esc(subj)))
+block('FIXTABLE', '\n'.join(rows))
 cov = []
 for tier in ('quick', 'thorough'):
     f = '/verif/runs/summary-%s.txt' % tier
